@@ -72,3 +72,52 @@ Qed.
 (* the same schedule on the real system: the loser of LoadOrStore falls into the CAS loop and gives up *)
 Lemma store_sched_real : lowres (run (fun k => Z.of_nat (10 + k)) (init_sys 2) (store_sched ++ [Ev 0; Ev 0; Ev 0])) = Some 11.
 Proof. vm_compute. reflexivity. Qed.
+
+(* ------------------------------------------------------------------ the background refresher ---------------- *)
+(* updateTS.doUpdate, for every scope that has an entry: ts := getTimestamp(); setLastTS(ts, scope) — the same
+   steps as a foreground GetTimestamp: a refresher round IS one of the n threads of ModelSys (it is merely never
+   the first user of a scope), so every theorem over run pd (init_sys n) es quantifies over it as well.
+   The variant below lets the threads flagged by `refresher` publish with a plain Store on the entry instead of
+   the CAS loop; with no thread flagged it is the real system, with one flagged it is refuted. *)
+Definition step_rstore (pd : nat -> Z) (refresher : nat -> bool) (s : sys) (e : event) : sys :=
+  match e with
+  | Ev t =>
+      match nth_error (thr s) t with
+      | Some th =>
+          match tpc th, cell s with
+          | PMapLoad ts, Some _ =>
+              if refresher t
+              then mkSys (Some (t, ts)) (issued s) (S (clock s)) (set_nth (thr s) t (with_pc th (PRet ts)))
+              else step pd s e
+          | _, _ => step pd s e
+          end
+      | None => step pd s e
+      end
+  | _ => step pd s e
+  end.
+
+Lemma step_rstore_none : forall pd s e, step_rstore pd (fun _ => false) s e = step pd s e.
+Proof.
+  intros pd s e. destruct e as [t|t]; cbn [step_rstore]; auto.
+  destruct (nth_error (thr s) t) as [th|]; auto. destruct (tpc th); auto. destruct (cell s); auto.
+Qed.
+
+(* thread 0 = foreground caller that created the entry, thread 1 = refresher round whose PD answer (allocated
+   first among the two later ones) lands after foreground thread 2 has cached a later timestamp *)
+Definition rstore_sched : list event :=
+  repeat (Ev 0) 9 ++ [Ev 1; Ev 1; Ev 2; Ev 2] ++ repeat (Ev 2) 7 ++ [Ev 1].
+
+Lemma rstore_variant_refuted :
+  exists (pd : nat -> Z), (forall i j, (i < j)%nat -> pd i < pd j) /\
+  exists n refresher es1 es2 v1 v2,
+    lowres (fold_left (step_rstore pd refresher) es1 (init_sys n)) = Some v1 /\
+    lowres (fold_left (step_rstore pd refresher) (es1 ++ es2) (init_sys n)) = Some v2 /\ v2 < v1.
+Proof.
+  exists (fun k => Z.of_nat (10 + k)). split; [intros; lia|].
+  exists 3%nat, (fun t => Nat.eqb t 1), (firstn 20 rstore_sched), (skipn 20 rstore_sched), 12, 11.
+  vm_compute. repeat split; reflexivity.
+Qed.
+
+Lemma rstore_sched_real :
+  lowres (run (fun k => Z.of_nat (10 + k)) (init_sys 3) (rstore_sched ++ repeat (Ev 1) 6)) = Some 12.
+Proof. vm_compute. reflexivity. Qed.
